@@ -192,9 +192,10 @@ def replay(seed, idx, desc, name, be):
 def run(tier, seed):
     chk = Check("C08", tier, seed, "exploration")
     try:
-        from ..kernels import c01_lowering
-        for k in c01_lowering.KERNELS:
+        from ..kernels import c01_lowering, c08_align
+        for k in c01_lowering.KERNELS + c08_align.KERNELS:
             chk.add_kernel(run_kernel(k, tier))
+        chk.add_lemmas(tier)
     except ImportError:
         pass
     n = 16 if tier == "quick" else 800
@@ -213,6 +214,6 @@ def run(tier, seed):
         cnt[r[1]["relation"]] = cnt.get(r[1]["relation"], 0) + 1
     chk.add_bounded("relations between public calls: consistent renaming (incl. names colliding with internal prefixes), input permutation with transposed tensor, output permutation, regrouping with parentheses, inversion and composition of rearrangements",
                     f"{n} chunks x 30 templates, sizes with equal lengths and 1s", len(res), len({(r[1]['relation'], r[1]['description']) for r in res}), failures=fails, samples=[r[1] for r in res[:2]], note=str(cnt))
-    chk.assumptions += ["bounded corpus; the diagonal kernel (C01.P.diag) is the only unbounded part"]
-    chk.explanation = "relational postconditions on public calls generated from one template; the axis bookkeeping of repeated names is proved for all ranks (shared kernel with C01)"
+    chk.assumptions += ["bounded corpus for the relations between public calls; unbounded parts: the diagonal bookkeeping (C01.P.diag) and the (name, occurrence) alignment of _squeeze_transpose_broadcast (C08.P.align, C08.P.axis_ids)"]
+    chk.explanation = "relational postconditions on public calls generated from one template; the axis bookkeeping of repeated names and the permutation that aligns input axes with output axes by (name, occurrence) are proved for all ranks from the real source"
     return chk
